@@ -463,6 +463,16 @@ pub trait Routine: Sync + 'static {
     fn hist_classes(_h: &Self::Hist) -> Vec<&'static str> {
         Vec::new()
     }
+
+    /// A *later session* on `dir`: a fresh instance opens the store, performs a fixed
+    /// follow-up (preferably one whose save produces a SHORTER file than the interrupted
+    /// one) and saves cleanly; then another fresh instance observes. Used for the clause
+    /// "leftover temporary files are ignored by later loads": the result on a crash image
+    /// that recovered to old (new) must equal the result on the clean directory before
+    /// (after) the interrupted operation. `None` = the routine defines no follow-up.
+    fn follow_up(_h: &Self::Hist, _dir: &Path) -> Option<Result<Obs, String>> {
+        None
+    }
 }
 
 #[derive(Debug, Clone, Serialize, Deserialize)]
@@ -555,6 +565,16 @@ fn observe_files<R: Routine>(h: &R::Hist, files: &Files) -> Result<Obs, String> 
         match catch_panic(|| R::observe(h, p)) {
             Ok(r) => r,
             Err(pi) => Err(format!("PANIC at {}:{}: {}", pi.file, pi.line, pi.msg)),
+        }
+    })
+}
+
+fn follow_files<R: Routine>(h: &R::Hist, files: &Files) -> Option<Result<Obs, String>> {
+    with_image_dir(|p| {
+        write_tree(p, files);
+        match catch_panic(|| R::follow_up(h, p)) {
+            Ok(r) => r,
+            Err(pi) => Some(Err(format!("PANIC at {}:{}: {}", pi.file, pi.line, pi.msg))),
         }
     })
 }
@@ -652,6 +672,8 @@ pub fn eval_history<R: Routine>(h: &R::Hist, known: &Known, shrink_target: Optio
     let mut refs: Vec<Option<Result<Obs, String>>> = vec![None; recd.boundaries.len()];
     let mut seen: HashMap<u64, bool> = HashMap::new(); // image hash -> failed
     let seed = hist_hash;
+    // reference follow-up sessions, one per boundary (lazily)
+    let mut fu_refs: Vec<Option<Option<Result<Obs, String>>>> = vec![None; recd.boundaries.len()];
 
     let record_fail = |fails: &mut Vec<Fail<R::Hist>>, st: &mut Stats, key: String, msg: String, snap: &Snapshot, kind: &ImageKind| {
         if known.is_open(&key) {
@@ -704,6 +726,7 @@ pub fn eval_history<R: Routine>(h: &R::Hist, known: &Known, shrink_target: Optio
         let inf = in_flight_of::<R>(snap, before);
         let site_class = R::site_class(snap, before);
         let kinds = image_kinds(inf.as_ref(), seed ^ (snap.seq as u64) << 32);
+        let mut follow_ups_left = 5usize; // per crash point: as-written first, then the first few other images
         for kind in kinds {
             let Some(files) = materialize(&snap.files, inf.as_ref(), &kind) else { continue };
             let th = tree_hash(&files);
@@ -730,6 +753,33 @@ pub fn eval_history<R: Routine>(h: &R::Hist, known: &Known, shrink_target: Optio
             }
             let verdict = judge_obs(&obs, &old, &new);
             seen.insert(img_hash, verdict.is_some());
+            // later-session clause: leftovers of the crashed save must not influence a later save+load
+            let mut verdict = verdict;
+            if verdict.is_none() && intermediate && follow_ups_left > 0 {
+                if let Ok(o) = &obs {
+                    let side = if *o == old { Some(j) } else if *o == new { Some(j + 1) } else { None };
+                    if let Some(b) = side {
+                        if fu_refs[b].is_none() {
+                            fu_refs[b] = Some(follow_files::<R>(h, &recd.boundaries[b]));
+                        }
+                        if let Some(Some(Ok(want))) = &fu_refs[b] {
+                            follow_ups_left -= 1;
+                            st.class("later-session:checked");
+                            match follow_files::<R>(h, &files) {
+                                Some(Ok(got)) if got == *want => {}
+                                Some(Ok(got)) => {
+                                    let diff = want.iter().find(|(k, v)| got.get(*k) != Some(*v)).map(|(k, v)| format!("object {k}: clean directory gives {} ; crash image gives {}", v.chars().take(260).collect::<String>(), got.get(k).map(|x| x.chars().take(260).collect::<String>()).unwrap_or_else(|| "<absent>".into()))).unwrap_or_else(|| "objects differ".into());
+                                    verdict = Some(("leftover-of-crashed-save-changes-a-later-session", format!("the image recovers to the {} state, but after the same follow-up session (fresh instance, one more save, reload) {diff}", if b == j { "old" } else { "new" })));
+                                }
+                                Some(Err(e)) => {
+                                    verdict = Some(("leftover-of-crashed-save-breaks-a-later-session", format!("the image recovers, but the follow-up session on it fails: {e}")));
+                                }
+                                None => {}
+                            }
+                        }
+                    }
+                }
+            }
             match verdict {
                 None => {
                     if let Ok(o) = &obs {
